@@ -397,7 +397,29 @@ def isolation_problems():
     return problems
 
 
+def shacl_shapemap_problems():
+    """SHACL for shape-map selected shapes with prefixed labels (the bracketed spelling crashes: recorded C04 finding), empty shapes kept:
+    the document parses, every sh:node object is a declared NodeShape, every property shape has one path."""
+    from shexer.shaper import Shaper
+    from shexer.consts import SHACL_TURTLE
+    from .stage_props import shacl_problems
+    doc = ('<http://ex.org/a> <http://ex.org/p> <http://ex.org/b> .\n<http://ex.org/a> <http://ex.org/q> "x" .\n'
+           '<http://ex.org/a2> <http://ex.org/p> <http://ex.org/b2> .\n<http://ex.org/c> <http://ex.org/r> <http://ex.org/a> .\n')
+    problems = []
+    for sm in ("<http://ex.org/a>@:A\n<http://ex.org/a2>@:A\n<http://ex.org/b>@:B\n<http://ex.org/b2>@:B",
+               "{FOCUS ex:p _}@:A\n{_ ex:p FOCUS}@:B\n<http://ex.org/c>@:C"):
+        for inverse in (False, True):
+            for thr in (0.0, 0.6, 1.0):
+                out = Shaper(shape_map_raw=sm, raw_graph=doc, namespaces_dict={"http://ex.org/": "ex"}, remove_empty_shapes=False, inverse_paths=inverse).shex_graph(
+                    string_output=True, output_format=SHACL_TURTLE, acceptance_threshold=thr)
+                for p_ in shacl_problems(out):
+                    problems.append("SHACL for shape map %r (inverse_paths=%s, threshold %s): %s\n%s" % (sm, inverse, thr, p_, out))
+    return problems
+
+
 def _history_more(name):
+    if name == "shacl-shape-map-prefixed-labels":
+        return shacl_shapemap_problems()
     if name == "cross-shaper-isolation":
         return isolation_problems()
     if name == "ignore-several-lists":
